@@ -95,6 +95,8 @@ static Library build_library(int variant, int ui, int perm, int namelen = 0, int
     lib.init(libname_of(namelen).c_str(), UNITS[ui].unit, UNITS[ui].precision);
     Cell* cells[4];
     const char* names[4] = {"LEAF", "MID", "TOPCELL", "ISLAND"};
+    std::string island_name = "ISLAND";   // namelen < 0: the ISLAND cell carries a name of -namelen characters (even lengths have no padding NUL in STRNAME)
+    if (namelen < 0) { island_name.clear(); for (int i = 0; i < -namelen; i++) island_name += (char)('a' + (i * 5 + i / 26) % 26); names[3] = island_name.c_str(); }
     for (int i = 0; i < 4; i++) { cells[i] = (Cell*)allocate_clear(sizeof(Cell)); cells[i]->init(names[i]); }
     Cell *leaf = cells[0], *mid = cells[1], *top = cells[2], *island = cells[3];
     {   // order of the structures in the file: the perm-th permutation of the four cells (0 = as listed: referenced before referencing)
@@ -722,6 +724,7 @@ int main(int argc, char** argv) {
     // 2^15 bytes and more (length word with the top bit set) and the longest string a record can hold
     std::vector<int> namelens = {1, 2, 31, 32, 57, 60, 61, 127, 255, 256, 1000, 4001, 32763, 32764, 32766, 40000, 65530};
     for (int nl : namelens) for (int v : {0, NBASE - 1}) jobs.push_back({v, nl % 3, 0, -1, nl, 0});
+    for (int cl : {2, 4, 8, 10, 12, 14, 16, 22, 24, 26, 30, 31, 32, 33, 64, 100}) for (int v : {0, NBASE - 1}) for (int perm : {0, 5, 23}) jobs.push_back({v, cl % 3, perm, -1, -cl, 0});   // cell-name lengths (negative namelen)
     for (int v : {0, NBASE - 1}) for (int q : {0, 23}) jobs.push_back({v, 0, q, -1, 0, 1});   // cells larger than one 64 KiB block
     if (run.thorough()) for (int v : {0, 5}) jobs.push_back({v, 2, 9, -1, 0, 2});
     for (int q : perms) for (int v : variants) for (int u = 0; u < nu; u++) jobs.push_back({v, u, q, -1, 0, 0});
